@@ -129,32 +129,28 @@ func (e *Engine) findIndicesNFA(haystack []byte) (int, int, bool) {
 	// Rust avoids this by integrating prefilter inside PikeVM as skip-ahead
 	// (not as an external correctness gate). See pikevm.rs:1293-1299.
 	if e.prefilter != nil && !e.prefilterPartialCoverage {
-		at := 0
-		for at < len(haystack) {
-			// Find next candidate position via prefilter
-			pos := e.prefilter.Find(haystack, at)
-			if pos == -1 {
-				return -1, -1, false // No more candidates
-			}
-			atomic.AddUint64(&e.stats.PrefilterHits, 1)
-
-			// Try to match at candidate position
-			var start, end int
-			var found bool
-			if useBT && e.boundedBacktracker.CanHandle(len(haystack)-pos) {
-				start, end, found = e.boundedBacktracker.SearchAtWithState(haystack, pos, state.backtracker)
-			} else {
-				start, end, found = state.pikevm.SearchWithSlotTableAt(haystack, pos, nfa.SearchModeFind)
-			}
-			if found {
-				return start, end, true
-			}
-
-			// Move past this position
-			atomic.AddUint64(&e.stats.PrefilterMisses, 1)
-			at = pos + 1
+		// Skip ahead to the first candidate and search from there. Both engines
+		// search unanchored: they try every start position from the candidate to
+		// the end of the haystack, so this one search decides the whole query.
+		// Retrying from each later candidate would rescan the same tail every
+		// time - O(n^2) on inputs dense in candidates that do not match.
+		pos := e.prefilter.Find(haystack, 0)
+		if pos == -1 {
+			return -1, -1, false // No candidates
 		}
-		return -1, -1, false
+		atomic.AddUint64(&e.stats.PrefilterHits, 1)
+
+		var start, end int
+		var found bool
+		if useBT && e.boundedBacktracker.CanHandle(len(haystack)-pos) {
+			start, end, found = e.boundedBacktracker.SearchAtWithState(haystack, pos, state.backtracker)
+		} else {
+			start, end, found = state.pikevm.SearchWithSlotTableAt(haystack, pos, nfa.SearchModeFind)
+		}
+		if !found {
+			atomic.AddUint64(&e.stats.PrefilterMisses, 1)
+		}
+		return start, end, found
 	}
 
 	// No prefilter: use BoundedBacktracker if available and safe
@@ -182,28 +178,28 @@ func (e *Engine) findIndicesNFAAt(haystack []byte, at int) (int, int, bool) {
 
 	// Use prefilter candidate loop — safe unless partial coverage (overflow)
 	if e.prefilter != nil && !e.prefilterPartialCoverage {
-		for at < len(haystack) {
-			pos := e.prefilter.Find(haystack, at)
-			if pos == -1 {
-				return -1, -1, false
-			}
-			atomic.AddUint64(&e.stats.PrefilterHits, 1)
-
-			var start, end int
-			var found bool
-			if useBT && e.boundedBacktracker.CanHandle(len(haystack)-pos) {
-				start, end, found = e.boundedBacktracker.SearchAtWithState(haystack, pos, state.backtracker)
-			} else {
-				start, end, found = state.pikevm.SearchWithSlotTableAt(haystack, pos, nfa.SearchModeFind)
-			}
-			if found {
-				return start, end, true
-			}
-
-			atomic.AddUint64(&e.stats.PrefilterMisses, 1)
-			at = pos + 1
+		// One unanchored search from the first candidate decides the whole query
+		// (see findIndicesNFA); retrying from later candidates is O(n^2).
+		if at >= len(haystack) {
+			return -1, -1, false
 		}
-		return -1, -1, false
+		pos := e.prefilter.Find(haystack, at)
+		if pos == -1 {
+			return -1, -1, false
+		}
+		atomic.AddUint64(&e.stats.PrefilterHits, 1)
+
+		var start, end int
+		var found bool
+		if useBT && e.boundedBacktracker.CanHandle(len(haystack)-pos) {
+			start, end, found = e.boundedBacktracker.SearchAtWithState(haystack, pos, state.backtracker)
+		} else {
+			start, end, found = state.pikevm.SearchWithSlotTableAt(haystack, pos, nfa.SearchModeFind)
+		}
+		if !found {
+			atomic.AddUint64(&e.stats.PrefilterMisses, 1)
+		}
+		return start, end, found
 	}
 
 	// No prefilter or incomplete: use BoundedBacktracker if available and safe
@@ -1172,28 +1168,28 @@ func (e *Engine) findIndicesNFAAtWithState(haystack []byte, at int, state *Searc
 	// Use prefilter candidate loop — safe unless partial coverage (overflow).
 	// Partial-coverage prefilters would miss unrepresented branches.
 	if e.prefilter != nil && !e.prefilterPartialCoverage {
-		for at < len(haystack) {
-			pos := e.prefilter.Find(haystack, at)
-			if pos == -1 {
-				return -1, -1, false
-			}
-			atomic.AddUint64(&e.stats.PrefilterHits, 1)
-
-			var start, end int
-			var found bool
-			if useBT && e.boundedBacktracker.CanHandle(len(haystack)-pos) {
-				start, end, found = e.boundedBacktracker.SearchAtWithState(haystack, pos, state.backtracker)
-			} else {
-				start, end, found = state.pikevm.SearchWithSlotTableAt(haystack, pos, nfa.SearchModeFind)
-			}
-			if found {
-				return start, end, true
-			}
-
-			atomic.AddUint64(&e.stats.PrefilterMisses, 1)
-			at = pos + 1
+		// One unanchored search from the first candidate decides the whole query
+		// (see findIndicesNFA); retrying from later candidates is O(n^2).
+		if at >= len(haystack) {
+			return -1, -1, false
 		}
-		return -1, -1, false
+		pos := e.prefilter.Find(haystack, at)
+		if pos == -1 {
+			return -1, -1, false
+		}
+		atomic.AddUint64(&e.stats.PrefilterHits, 1)
+
+		var start, end int
+		var found bool
+		if useBT && e.boundedBacktracker.CanHandle(len(haystack)-pos) {
+			start, end, found = e.boundedBacktracker.SearchAtWithState(haystack, pos, state.backtracker)
+		} else {
+			start, end, found = state.pikevm.SearchWithSlotTableAt(haystack, pos, nfa.SearchModeFind)
+		}
+		if !found {
+			atomic.AddUint64(&e.stats.PrefilterMisses, 1)
+		}
+		return start, end, found
 	}
 
 	// No prefilter or incomplete: use BoundedBacktracker if available and safe
